@@ -133,6 +133,8 @@ class MoreInfoFromHeaderMixin:
             return None
 
         try:
-            return URL(url=referrer)
-        except ValueError:  # e.g. an unbalanced IPv6 bracket
+            url = URL(url=referrer)
+            url.port  # urlsplit() validates the port only when it is read
+            return url
+        except ValueError:  # e.g. an unbalanced IPv6 bracket, a non-numeric port
             return None
